@@ -163,7 +163,36 @@ class Eval:
                 v = self.seq(stmts[i + 1:], tail, e_then, depth, value)
                 self.conds.pop()
                 self.merge(env, ("match", init), [(key, e_then), ("_", e_else)])
+                for i_, t_ in e_then.items():
+                    env.setdefault(i_, t_)
                 return v
+            # `if C { ...; continue / break / return }` (no else): the rest of the block runs under not C
+            x = s.get("e") if s["k"] not in ("LetStmt", "ItemStmt") else None
+            xs = strip(x) if isinstance(x, dict) and x.get("k") in ("DropTemps", "Use") else x
+            if isinstance(xs, dict) and xs.get("k") == "If" and "mac_src" not in xs and diverges(xs["then"]) and not ("else" in xs and diverges(xs["else"])):
+                c = self.expr(xs["cond"], env, depth)
+                dv = decide_bool(c)
+                if dv is True:
+                    self.effect(xs["then"], env, depth)
+                    return ("never",)
+                if dv is None:
+                    e_then = dict(env)
+                    self.conds.append((c, True))
+                    self.effect(xs["then"], e_then, depth)
+                    self.conds.pop()
+                    e_rest = dict(env)
+                    self.conds.append((("survived", c), False))   # the earlier exit was not taken (implied by the order of `returns`)
+                    if "else" in xs:
+                        self.effect(xs["else"], e_rest, depth)
+                    v = self.seq(stmts[i + 1:], tail, e_rest, depth, value)
+                    self.conds.pop()
+                    self.merge(env, ("if", c), [("then", e_then), ("else", e_rest)])
+                    for i_, t_ in e_rest.items():
+                        env.setdefault(i_, t_)   # locals declared in the rest of the block stay visible (last_env)
+                    return v
+                if "else" in xs:
+                    self.effect(xs["else"], env, depth)
+                continue
             self.stmt(s, env, depth)
         if tail is not None:
             if value:
@@ -281,7 +310,7 @@ class Eval:
             self.effect({"k": "Block", **e["body"]}, env, depth)
             return
         if k == "Ret":
-            self.returns.append((tuple(self.conds), self.expr(e["e"], env, depth) if "e" in e else ("unit",)))
+            self.returns.append((tuple(x for x in self.conds if x[0][:1] != ("survived",)), self.expr(e["e"], env, depth) if "e" in e else ("unit",)))
             return
         # any other expression: evaluate for nested effects (e.g. closures are ignored)
         self.expr(e, env, depth)
@@ -534,7 +563,7 @@ class Eval:
             return ("index", self.expr(e["e"], env, depth), self.expr(e["idx"], env, depth))
         if k == "Ret":
             v = self.expr(e["e"], env, depth) if "e" in e else ("unit",)
-            self.returns.append((tuple(self.conds), v))
+            self.returns.append((tuple(x for x in self.conds if x[0][:1] != ("survived",)), v))
             return ("never",)
         if k in ("Assign", "AssignOp", "Loop"):
             self.effect(e, env, depth)
@@ -703,6 +732,30 @@ class Eval:
                     self._helper_stack.pop()
                     self._helper_depth -= 1
         return ("call", name, tuple(args))
+
+
+def diverges(e):
+    """does control never fall out of the end of expression / block e (it ends in return / break / continue on every path)?"""
+    if not isinstance(e, dict):
+        return False
+    k = e.get("k")
+    if k in ("DropTemps", "Use", "Type"):
+        return diverges(e["e"])
+    if k in ("Ret", "Break", "Continue"):
+        return True
+    if k == "Block":
+        if "mac_src" in e:
+            return e.get("mac") in ("panic", "unreachable", "todo", "unimplemented")
+        for st in e.get("stmts", []):
+            x = st.get("e")
+            if st.get("k") != "LetStmt" and isinstance(x, dict) and diverges(x):
+                return True
+        return "expr" in e and diverges(e["expr"])
+    if k == "If":
+        return "else" in e and diverges(e["then"]) and diverges(e["else"])
+    if k == "Match" and e.get("src") == "Normal":
+        return bool(e["arms"]) and all(diverges(a["body"]) for a in e["arms"])
+    return False
 
 
 _KNOWN = None
